@@ -135,6 +135,7 @@ CHECKS["C15"] = {
     "tests": [
         {"name": "TestCatalogue", "quick": 1, "thorough": 1, "shards": 1},
         {"name": "TestKeyAndRange", "quick": 20000, "thorough": 200000, "shards": 4},
+        {"name": "TestRangeRequests", "quick": 10000, "thorough": 100000, "shards": 4},
     ],
 }
 
